@@ -29,9 +29,11 @@ Accepted ==
       e == IF l.ok THEN Parse(l.toks) ELSE [ok |-> FALSE]
       ru == IF l.ok THEN RuleFromToks(l.toks, r.text) ELSE ParseError
       loose == l.ok /\ Inexact(l.toks)
-  IN /\ "ok" \in DOMAIN r.x                                   \* not a panic
-     /\ r.x.ok = e.ok
-     /\ (e.ok /\ ~loose => r.x.t = e.t)
-     /\ r.rule.k = ru.k
-     /\ (ru.k = "ok" /\ ~loose => r.rule.name = ru.name /\ r.rule.meta = ru.meta /\ r.rule.expr = ru.expr)
+      hasx == "x" \in DOMAIN r                                 \* records of the repository's own tests carry
+      hasr == "rule" \in DOMAIN r                              \* only the call that was made
+  IN /\ (hasx => /\ "ok" \in DOMAIN r.x                       \* not a panic
+                  /\ r.x.ok = e.ok
+                  /\ (e.ok /\ ~loose => r.x.t = e.t))
+     /\ (hasr => /\ r.rule.k = ru.k
+                  /\ (ru.k = "ok" /\ ~loose => r.rule.name = ru.name /\ r.rule.meta = ru.meta /\ r.rule.expr = ru.expr))
 =============================================================================
